@@ -1,2 +1,3 @@
 pub mod bits;
+pub mod expr;
 pub mod svref;
